@@ -43,7 +43,11 @@ LAWS = [
     ("abbrev ?haschildren = DIE ?haschildren", "raw entry (|D| (D abbrev ?haschildren D !haschildren, D abbrev !haschildren D ?haschildren))"),
     ("abbrev code = DIE's code", "raw entry (|D| D abbrev (|A| D unit abbrev entry ?(code == A code) ?(offset != A offset)))"),
     ("abbrev entry codes unique per table", "abbrev (|U| [U entry code] (|L| L elem (|C| [L elem (== C)] length > 1)))"),
-]
+] + dwcorr.copy_laws("abbreviation table", "abbrev", ["offset", "[entry offset]"]) \
+  + dwcorr.copy_laws("abbreviation", "abbrev entry", ["offset", "label", "code", "[?haschildren]", "[attribute label]"]) \
+  + dwcorr.copy_laws("abbreviation attribute", "abbrev entry attribute", ["label", "form", "offset"]) \
+  + dwcorr.copy_laws("location-list element", LOCV + " ?(type == T_LOCLIST_ELEM)", ["length", "[elem label]", "[address]"]) \
+  + dwcorr.copy_laws("location operation", LOCV + " ?(type == T_LOCLIST_ELEM) elem", ["offset", "label", "[value]"])
 
 
 def uleb_len(n):
